@@ -626,6 +626,14 @@ def _(cx, r):
 @template('strapdown.compute_increments_from_imu')
 def _(cx, r):
     imu = cx.pick(r, 'imu')
+    if r.random() < 0.2 and len(imu) > 3:
+        # a sample logged twice with the previous sample's time stamp (dt == 0): the
+        # documented row count ("always one less than the number of IMU readings") holds
+        k = int(r.integers(1, len(imu)))
+        idx = np.asarray(imu.index, dtype=float).copy()
+        idx[k] = idx[k - 1]
+        imu = imu.copy()
+        imu.index = pd.Index(idx, name=imu.index.name)
     return Call('strapdown.compute_increments_from_imu',
                 strapdown.compute_increments_from_imu,
                 [Arg(imu, 'table'), Arg(['rate', 'increment'][int(r.integers(2))])],
@@ -1156,7 +1164,10 @@ def check_schema(kind, value, expect_index=None, ordered=True):
         idx = np.asarray(value.index)
         if idx.dtype.kind not in 'fiu':
             return f"{kind}: index is not numeric time ({idx.dtype})"
-        if len(idx) > 1 and not (np.diff(idx.astype(float)) > 0).all():
+        if expect_index is None and len(idx) > 1 and \
+                not (np.diff(idx.astype(float)) > 0).all():
+            # (when the expected index is known it is compared exactly below; it may
+            #  legitimately repeat a stamp when the caller's input does)
             return f"{kind}: time index not increasing"
         if expect_index is not None and kind not in ('traj_error',):
             if len(idx) != len(expect_index) or not (idx.astype(float) ==
